@@ -85,6 +85,8 @@ class World(object):
         self.raws = {}
         self.snap = {}
         self.wrap_changed = []
+        World.made = getattr(World, "made", 0) + 1
+        self.serial = World.made  # histories start at different places of the script-name list
 
     def fmt(self, key, desc):
         if key not in self.formats:
@@ -92,11 +94,11 @@ class World(object):
             self.snap[("f", key)] = listing(self.formats[key])
         return self.formats[key]
 
-    SCRIPT_NAMES = ["prog", " console", "\tmy console", "", "a b", "prog\n", "-x", "--", "pröǵ"]
+    SCRIPT_NAMES = ["prog", " console", "\tmy console", "", "a b", "prog\n", "-x", "--", "pröǵ", "/opt/app/pkg/__main__.py", "pkg/__main__.py", "./bin/console.py", "C:\\tools\\app.exe", "python -m app"]
 
     def raw(self, key, tokens):
         if key not in self.raws:
-            script = self.SCRIPT_NAMES[len(self.raws) % len(self.SCRIPT_NAMES)]
+            script = self.SCRIPT_NAMES[(len(self.raws) + self.serial) % len(self.SCRIPT_NAMES)]
             argv = [script] + list(tokens)
             before = list(argv)
             if len(self.raws) % 4 == 3:
